@@ -35,12 +35,15 @@ def realise(feat: Dict[str, bool], root: Path) -> List[str]:
     pk.mkdir(parents=True, exist_ok=True)
     init = '"""Package pk."""\n'
     if feat["move"]:
-        init += "from pk._impl import Moved\n__all__ = ['Moved']\n"
+        init += "from pk._impl import Moved, mf\n__all__ = ['Moved', 'mf']\n"
         (pk / "_impl.py").write_text(
             '"""Implementation module."""\n'
-            'class Moved:\n    """Moved class."""\n    def mm(self):\n        """Method mm."""\n')
+            'class Moved:\n    """Moved class."""\n    def mm(self, n=1):\n        """Method mm, see L{helper}."""\n'
+            'def helper():\n    """Function helper."""\n'
+            'def mf(x=1):\n    """Function mf, see L{helper}."""\n')
     (pk / "__init__.py").write_text(init)
     mod = ['"""Module mod, see L{Hid}."""',
+           'from typing import Generic, TypeVar',
            'class Base:',
            '    """Class Base."""',
            '    def meth(self):',
@@ -66,7 +69,9 @@ def realise(feat: Dict[str, bool], root: Path) -> List[str]:
            '    def hm(self):',
            '        """Overrides hm."""']
     if feat["nested"]:
-        mod += ['    class Inner:',
+        mod += ['    Tag = TypeVar("Tag")',
+                '    """Attribute Tag."""',
+                '    class Inner(Generic[Tag]):',
                 '        """Nested class."""',
                 '        def im(self):',
                 '            pass']
@@ -593,8 +598,7 @@ MODEL_SWITCHES = {"link-to-hidden-object": "link-to-hidden-object", "dead-link-t
                   "hidden-root-listed": "hidden-root-listed", "dead-link-hidden-root": "hidden-root-listed",
                   "inherited-docstring-samepage-link": "inherited-docstring-samepage-link",
                   "superseded-duplicate-listed": "superseded-duplicate-listed",
-                  "percent-encoded-page-filename": "percent-encoded-page-filename",
-                  "overrides-note-names-hidden-member": "overrides-note-names-hidden-member"}
+                  "percent-encoded-page-filename": "percent-encoded-page-filename"}
 
 
 def fixed_set() -> str:
@@ -715,11 +719,18 @@ def run_property(ctx: Ctx, prop: str) -> int:
     # ---- design level: TLC judges the predicted site of every model of the family
     k = 2 if ctx.quick else 3
     ctx.extra["model_switches_fixed"] = fixed_set()
-    r = ctx.tlc("Site", CFG_ENUM.format(k=k, depths="{1, 3}", fixed=fixed_set()), workers="auto", check=False, timeout=900,
-                java_opts=["-Xmx8g"])
+    # quick: two privacies varied with the sidebar expanded (depth 3), at most one varied at depth 1 (the enumeration is the
+    # dominant cost on a loaded machine); thorough: three varied at both depths
+    r = ctx.tlc("Site", CFG_ENUM.format(k=k, depths="{3}" if ctx.quick else "{1, 3}", fixed=fixed_set()), workers="auto",
+                check=False, timeout=900, java_opts=["-Xmx8g"])
     if r.errors or (r.rc != 0 and not r.violated):
         raise MachineryError("TLC failed on Site (enum): %s rc=%s\n%s" % (r.errors[:3], r.rc, "\n".join(r.out.splitlines()[-30:])))
     recs = r.printed
+    if ctx.quick:
+        r1 = ctx.tlc("Site", CFG_ENUM.format(k=1, depths="{1}", fixed=fixed_set()), workers="auto", check=True, timeout=600)
+        if r1.violated:
+            r.violated.extend(r1.violated)
+        recs = recs + r1.printed
     if not recs:
         raise MachineryError("TLC emitted no model")
     ctx.exhaustive = True
